@@ -134,3 +134,6 @@ def blkmore(run, P):
 def nullbelief(run, P):
     from rules import r_nullbelief
     r_nullbelief.run(run, P)
+def elemshift(run, P):
+    from rules import r_elemshift
+    r_elemshift.run(run, P)
